@@ -125,6 +125,22 @@ def run(ctx):
                                 limE.add(te)
                                 limE.add(fe)
                 ok = all(h.uncrossed_path([d for _, d in errE], [blk], edges=limE, blocks=[outer]) is None for blk in rets)
+                # a Sync whose checkout failed was answered with an error: the batch it closed is discarded on every way back to the idle loop,
+                # whatever checkout_failure_limit says - a batch left behind is sent together with the next one
+                notS = set()
+                for sw in hsw:
+                    if sw.is_bool():
+                        for o in sw.origins():
+                            if o.kind == "bin" and o.what in ("Eq", "Ne") and 83 in (const_int(o.extra["a"]), const_int(o.extra["b"])):
+                                te, fe = sw.bool_edges()
+                                if o.neg:
+                                    te, fe = fe, te
+                                notS.add(fe if o.what == "Eq" else te)
+                rbs = [c.block for c in h.calls("pgcat::client::Client::reset_buffered_state")]
+                witS = h.uncrossed_path([d for _, d in errE], [outer], blocks=rbs, edges=notS)
+                r4.check(bool(rbs) and bool(notS) and witS is None, "failed-sync=>batch-discarded", "after a failed checkout for a Sync the buffered batch is discarded before the loop continues",
+                         "a Sync whose checkout failed can go back to the idle loop with its batch still buffered (the discard depends on checkout_failure_limit): the refused Parse/Bind/Execute are sent with the client's next batch - "
+                         "doubled replies, a statement the client was told had failed runs later, a refused BEGIN leaves an idle client pinning a pool slot", "", witS and h.describe_path(witS))
                 r4.check(ok, "failure-return-only-at-limit", "explicit returns in the failure arm depend on checkout_failure_limit", "the failure arm returns without consulting checkout_failure_limit")
 
     # ---------------- R5 nothing keeps the guard past the end of the transaction
